@@ -9,7 +9,8 @@ automata (analysis/gram.py), against which a flow-sensitive, inter-procedural ty
   O1  a `match node.as_rule()` whose fall-through arm can only panic (unreachable!/unimplemented!/todo!) has an arm for every rule the
       grammar can put at that position;
   O2  `next()/last()` unwrapped or expect-ed: the grammar does not allow the child sequence to end there;
-  O3  `single().unwrap()`: the grammar yields exactly one child there.
+  O3  `single().unwrap()`: the grammar yields exactly one child there;
+  O4  `assert_eq!(node.as_rule(), Rule::X)`: every node reaching the assertion has rule X.
 
 Not decided (counted in the evidence, never alarmed): panics that rest on typing / scoping invariants (`ident.ty().unwrap()`, drop-order
 assertions of ScopeHandle / TemporaryRegister), hand-assembled Option<Node> values, stack depth, termination.
@@ -43,10 +44,11 @@ def run(ctx, rep):
     rep.floor("C16.grammar rules producing tokens", len([r for r in G.token_rules() if not r.startswith("<root")]), 90)
     rep.floor("C16.functions handling parse-tree nodes analysed", len(fl.analysed), 70)
     rep.floor("C16.Pratt parser operator tables read", sum(len(v["infix"]) + len(v["prefix"]) + len(v["postfix"]) for v in fl.pratt_ops.values()), 20)
-    counts = {"O1": 0, "O2": 0, "O3": 0}
+    counts = {"O1": 0, "O2": 0, "O3": 0, "O4": 0}
     text = {"O1": "every rule the grammar can put here has an arm (the fall-through arm panics)",
             "O2": "the grammar guarantees another child here (next()/last() is unwrapped)",
-            "O3": "the grammar guarantees exactly one child here (single() is unwrapped)"}
+            "O3": "the grammar guarantees exactly one child here (single() is unwrapped)",
+            "O4": "the node always has the asserted rule (assert_eq!(node.as_rule(), Rule::X))"}
     per_fn_idx = {}
     for key in sorted(fl.obligations, key=lambda k: (k[0], k[1], k[2])):
         o = fl.obligations[key]
@@ -59,7 +61,7 @@ def run(ctx, rep):
         elif o["ok"]:
             rep.ob("C16.gram", "%s in %s: %s" % (o["kind"], fshort, text[o["kind"]]), "ok", o["detail"], o["span"], fn=o["fn"],
                    key="C16.gram|%s|%s|#%d" % (o["kind"], fshort, n))
-        elif o["kind"] == "O1":
+        elif o["kind"] in ("O1",):
             # one violation per rule that has no arm: different rules are different defects (and different inputs)
             reach = sorted(fl.param_in.get(o["fn"], {}).items())
             for r in o.get("missing", []):
